@@ -3,6 +3,7 @@ package exec
 import (
 	"errors"
 	"fmt"
+	"go/token"
 	"reflect"
 	"strconv"
 	"strings"
@@ -35,6 +36,11 @@ type Slots struct {
 	// struct VALUES (not pointers): a typed slice of them and a single one
 	Vals []Vee
 	Val  Vee
+	// private twins: bookkeeping fields of the application whose names differ from bound fields in
+	// case only (they are nobody's business but the struct's own)
+	extra string
+	flag  int
+	objs  map[string]int
 }
 
 // Vee is the universe type that is used by value: plain fields, methods with a value receiver,
@@ -43,6 +49,7 @@ type Vee struct {
 	Str  string
 	Num  int
 	Flag bool
+	num  string
 }
 
 func (v Vee) Greet() string          { return "hi:" + v.Str }
@@ -207,7 +214,7 @@ func (w *World) fillUniverse(n *hx.Node, td *hx.TypeDef, pv reflect.Value, poiso
 		return reflect.ValueOf(w.veeValue(v.RefID()))
 	}
 	set := func(slot string, v hx.Val, salt string) {
-		f := sv.FieldByNameFunc(func(name string) bool { return strings.EqualFold(name, slot) })
+		f := sv.FieldByNameFunc(func(name string) bool { return token.IsExported(name) && strings.EqualFold(name, slot) })
 		if !f.IsValid() {
 			return
 		}
